@@ -380,6 +380,10 @@ def b_zip(I, args, kw):
 
 
 def b_sorted(I, args, kw):
+    from .symcoll import SortedView
+    if isinstance(args[0], SymSeq):
+        I.used_models.add("sorted(): permutation of its input ordered by key")
+        return SortedView(args[0], kw.get("key"))
     xs = list(I.iterate(args[0]))
     key = kw.get("key")
     rev = kw.get("reverse", False)
@@ -650,7 +654,10 @@ def b_id(I, args, kw):
 
 
 def b_reversed(I, args, kw):
-    return list(reversed(list(I.iterate(args[0]))))
+    v = args[0]
+    if isinstance(v, SymSeq):
+        return SymSeq(f"reversed({v.name})", v.length, lambda i: v.elem(v.length - 1 - i), contains=v.contains)
+    return list(reversed(list(I.iterate(v))))
 
 
 def b_ord(I, args, kw):
